@@ -129,7 +129,7 @@ def by_names(log):
     return {e[0] for e in log}
 
 
-def refine_frame(ex, st, pre_heap, log, uid0):
+def refine_frame(ex, st, pre_heap, log, uid0, loop_elem=None):
     """after the coarse havoc: objects the body provably never writes keep their pre-loop contents.
     A logged write location counts as loop-invariant when its term mentions no constant created
     since the havoc (serial >= uid0): it then depends only on state the loop does not change."""
@@ -181,16 +181,26 @@ def refine_frame(ex, st, pre_heap, log, uid0):
                 continue
             if preds is not None:
                 pl, ovar = preds
-                if any(_max_uid(p) >= uid0 for p in pl):
-                    ok = False
+                for p in pl:
+                    if _max_uid(p) < uid0:
+                        conds.append(z3.substitute(p, (ovar, o)))
+                    elif p.get_id() in ex.role_alt:
+                        # the container written varies with the iteration: fall back on "some container of that kind"
+                        conds.append(z3.substitute(ex.role_alt[p.get_id()], (ovar, o)))
+                    else:
+                        ok = False
+                        break
+                if not ok:
                     break
-                conds.extend(z3.substitute(p, (ovar, o)) for p in pl)
                 continue
             if at is None:
                 ok = False
                 break
             if _max_uid(at) < uid0:
                 conds.append(o == at)
+            elif loop_elem is not None and at.eq(Val.o(At(loop_elem[0], loop_elem[1]))):
+                # the object written is the loop variable itself: one of the elements of the iterated sequence
+                conds.append(smt.Contains(loop_elem[0], Val.ref(o)))
             elif name == "$seq" and hint is not None and hint.kind == "list" and hint.name != "Any":
                 conds.append(role_of(o) == ex.rid(hint.name))
             elif pc is not None and alive_pre is not None and proves_fresh(ex, pc, at, alive_pre):
@@ -372,7 +382,7 @@ def _for_over2(ex, stmt, st, it, S0, ety, q, k, invs, lk, heap_list, body_from, 
     nomutate_by_frame = False
     if "*" not in writes:
         _, _, log = trial(ex, st, lambda s: (s.assume(i < Len(S0)), body_from(s, i))[1])
-        refine_frame(ex, st, pre_heap, log, uid0)
+        refine_frame(ex, st, pre_heap, log, uid0, loop_elem=(S0, i))
         if heap_list is not None:
             ent = ex.last_frame_summary.get("$seq")
             if "$seq" not in by_names(log):
